@@ -18,5 +18,5 @@ base = set(json.load(open("/root/.vp/BASELINE.json"))["stable_pass"])
 missing = sorted(base - passed)
 print("baseline passes: %d/%d; failed tests: %s" % (len(base & passed), len(base), sorted(failed)))
 if missing:
-    print("MISSING:", missing)
+    print("MISSING (%d):" % len(missing), missing[:6])
     sys.exit(1)
